@@ -46,6 +46,33 @@ Proof.
     + rewrite create_rect_mem in Hm. unfold rect_mem in Hm. lia.
 Qed.
 
+(* 0013b67: the clip of the update region to the requested region *)
+Lemma clip_ok upd req : WF upd -> WF req ->
+  WF (clip_to_requested upd req) /\
+  forall x y, rgn_mem (clip_to_requested upd req) x y = rgn_mem upd x y && rgn_mem req x y.
+Proof.
+  intros Wu Wq. unfold clip_to_requested.
+  pose proof (rgn_sub_bool upd req Wu Wq) as B. pose proof (rgn_sub_mem upd req Wu Wq) as M.
+  pose proof (rgn_sub_wf upd req Wu Wq) as Ws.
+  destruct (snd (rgn_sub upd req)).
+  - split; [apply rgn_and_wf; assumption|apply rgn_and_mem; assumption].
+  - split; [assumption|]. intros x y.
+    assert (E : rgn_is_empty (fst (rgn_sub upd req)) = true) by (destruct (rgn_is_empty (fst (rgn_sub upd req))); [reflexivity|discriminate B]).
+    pose proof (proj1 (is_empty_sem _ Ws) E x y) as Z0. rewrite M in Z0.
+    destruct (rgn_mem upd x y); [|reflexivity]. destruct (rgn_mem req x y); [reflexivity|discriminate Z0].
+Qed.
+
+Lemma redraw_cursor_wf cur cx cy W H upd : 1 <= W -> 1 <= H -> WF upd -> WF (redraw_cursor cur cx cy W H upd).
+Proof.
+  intros HW HH Wu. unfold redraw_cursor. destruct cur as [c|]; [|assumption].
+  pose proof (clip2_inside (cx - cu_xhot c) (cy - cu_yhot c) (cx - cu_xhot c + cu_w c) (cy - cu_yhot c + cu_h c)
+                           0 0 W H ltac:(lia) ltac:(lia)) as C.
+  destruct (sraClipRect2 (cx - cu_xhot c) (cy - cu_yhot c) (cx - cu_xhot c + cu_w c)
+                         (cy - cu_yhot c + cu_h c) 0 0 W H) as [[[[b x1] y1] x2] y2].
+  destruct C as (C1 & C2 & C3 & C4 & C5). destruct b; [|assumption].
+  destruct (proj1 C5 eq_refl) as [Lx Ly]. apply rgn_or_wf; [assumption|apply create_rect_wf; assumption].
+Qed.
+
 (* a rectangle produced by iterating a well-formed region that lies within the screen *)
 Lemma iter_rect_inside revX revY r W H rc : WF r -> within W H r -> In rc (rgn_iter revX revY r) ->
   let '(x1, y1, x2, y2) := rc in 0 <= x1 /\ x1 < x2 /\ x2 <= W /\ 0 <= y1 /\ y1 < y2 /\ y2 <= H.
@@ -111,8 +138,14 @@ Proof.
       destruct (redraw_cursor_ok (sn_cursor sn) (sn_clx sn) (sn_cly sn) W H upd2 HW HH Wu2 Iu2) as [Wa Ia].
       apply redraw_cursor_ok; assumption. }
     destruct K as [Wu3 Iu3].
+    set (upd4 := if c_cursorshape c1 then upd3 else clip_to_requested upd3 (sn_req sn)).
+    assert (K4 : WF upd4 /\ within W H upd4).
+    { unfold upd4. destruct (c_cursorshape c1); [split; assumption|].
+      destruct (clip_ok upd3 (sn_req sn) Wu3 Wq) as [Wk Mk]. split; [assumption|].
+      intros x y Hm. rewrite Mk in Hm. apply andb_true_iff in Hm. apply Iu3. tauto. }
+    clear Wu3 Iu3. destruct K4 as [Wu3 Iu3].
     apply Forall_forall. intros r Hin. apply in_map_iff in Hin. destruct Hin as (rc & <- & Hin).
-    pose proof (iter_rect_inside false false upd3 W H rc Wu3 Iu3 Hin) as Hr.
+    pose proof (iter_rect_inside false false upd4 W H rc Wu3 Iu3 Hin) as Hr.
     destruct rc as [[[x1 y1] x2] y2]. cbn [to_xywh rect_in_screen]. lia.
   - (* copy rectangles: inside requestedRegion and inside requestedRegion shifted by (dx,dy) *)
     apply Forall_forall. intros rc Hin.
